@@ -10,11 +10,11 @@ RULE = ("zones rasters 1x1..12x12 (40x40 sample in thorough): int and float ids,
         "single-cell zones, NaN / +inf / -inf zone cells; values in int8..uint64, float32, float64 with NaN/+-inf; nodata in {None, "
         "a present value, an absent value, a value equal to a zone id}; zone_ids None / subsets / permutations / absent ids / none "
         "present; random subsets and orders of the seven statistics, user reducers (recording reducers log the multiset of cells "
-        "they receive); both return types; non-trivial = distinct (zones, values, nodata, zone_ids, stats) with >= 2 zones and a "
+        "they receive); both return types; zones and values independently in C / Fortran / strided / negative-stride memory layouts; non-trivial = distinct (zones, values, nodata, zone_ids, stats) with >= 2 zones and a "
         "cell that is invalid (NaN/inf/nodata) or a non-finite zone cell")
 BUDGET = {'quick': 60, 'thorough': 500}
 FLOORS = {'quick': {'table.rows': 400, 'table.values': 400, 'raster_form': 250, 'reducer.multisets': 200, 'zones.-inf': 20,
-                    'zones.nan': 60, 'empty_zone_nan': 40, 'nodata.equals_zone_id': 20, 'zone_ids.unsorted': 40},
+                    'zones.nan': 60, 'empty_zone_nan': 40, 'nodata.equals_zone_id': 20, 'zone_ids.unsorted': 40, 'layouts_differ_between_inputs': 200},
           'thorough': {'table.rows': 4000, 'table.values': 4000, 'raster_form': 2500, 'reducer.multisets': 2000}}
 ASSUMPTIONS = ['float32 values are reduced in float32 by the library (z.mean() etc.): tolerances are scaled by the eps of the values dtype',
                'integer magnitudes are kept where int64 sums cannot overflow']
@@ -51,8 +51,10 @@ def check(rec, kind, idx, rng, tier):
     names = [zr.STATS[i] for i in rng.permutation(7)[:int(rng.integers(1, 8))]]
     default_stats = rng.random() < 0.15
     geom = gen.random_geom(rng)
-    za = gen.mk(zones, name='zones', **geom)
-    va = gen.mk(values, name='values', attrs={'res': (1, 1), 'k': [1]}, **geom)
+    # memory layouts: the two rasters independently C / Fortran / strided / negative-stride (same values)
+    zlay = str(rng.choice(['C', 'C', 'F', 'strided', 'neg'])); vlay = str(rng.choice(['C', 'C', 'F', 'strided', 'neg']))
+    za = gen.mk(gen.layout(zones, zlay), name='zones', **geom)
+    va = gen.mk(gen.layout(values, vlay), name='values', attrs={'res': (1, 1), 'k': [1]}, **geom)
     kw = {}
     if zone_ids is not None:
         kw['zone_ids'] = list(zone_ids)
@@ -64,7 +66,7 @@ def check(rec, kind, idx, rng, tier):
         kw['nodata_values'] = nodata
     rows = _expected_rows(zones, zone_ids)
     base = dict(zones=zones, values=values, kwargs=kw, zones_kind=zkind, zones_nonfinite=znf, values_kind=vkind,
-                nodata_kind=ndlabel, zone_ids_kind=zlabel)
+                nodata_kind=ndlabel, zone_ids_kind=zlabel, zones_layout=zlay, values_layout=vlay)
     invalid_present = (~zr.valid(values, nodata)).any() or znf != 'none'
     if len(uz) >= 2 and invalid_present:
         rec.nontriv(zones.tobytes(), values.tobytes(), repr(nodata), repr(zone_ids), tuple(names))
@@ -116,7 +118,9 @@ def check(rec, kind, idx, rng, tier):
                                   dict(base, got=out.to_dict('list')))
                 else:
                     rec.ok('table.values'); okframe = True
-    for lab in (('zones.' + znf), 'nodata.' + ndlabel, 'zone_ids.' + zlabel.split('+')[0], 'values.' + vkind):
+    if okframe and zlay != vlay:
+        rec.ok('layouts_differ_between_inputs')
+    for lab in (('zones.' + znf), 'nodata.' + ndlabel, 'zone_ids.' + zlabel.split('+')[0], 'values.' + vkind, 'layout.zones.' + zlay, 'layout.values.' + vlay):
         rec.ok(lab) if okframe else None
 
     # ---- raster form ------------------------------------------------------
